@@ -411,6 +411,54 @@ def run_threadless(case: Dict[str, Any]) -> Dict[str, Any]:
             'sample': {'case': case, 'program': [str(p)[:40] for p in prog][:30], 'reap_delay_iterations': obs.get('reap_delay_iterations')}}
 
 
+class TlsClient:
+    """A client of the proxy's own TLS front (--key-file/--cert-file) with the read/write interface of rig.peers.Peer."""
+
+    def __init__(self, peer: Any) -> None:
+        import ssl
+        self.ssl = ssl
+        ctx = ssl.SSLContext(ssl.PROTOCOL_TLS_CLIENT)
+        ctx.check_hostname = False
+        ctx.verify_mode = ssl.CERT_NONE
+        peer.sock.setblocking(True)
+        peer.sock.settimeout(20)
+        self.t = ctx.wrap_socket(peer.sock, server_hostname='front.test')     # the proxy's thread does its side meanwhile
+        self.t.setblocking(False)
+        self.rx = bytearray()
+        self.eof = False
+        self.reset = False
+
+    @property
+    def ended(self) -> bool:
+        return self.eof or self.reset
+
+    def send(self, data: bytes) -> int:
+        try:
+            return self.t.send(data)
+        except (self.ssl.SSLWantWriteError, self.ssl.SSLWantReadError, BlockingIOError):
+            return 0
+        except OSError:
+            self.reset = True
+            return -1
+
+    def pump(self, limit: Any = None) -> int:
+        got = 0
+        while not self.ended and (limit is None or got < limit):
+            try:
+                d = self.t.recv(65536)
+            except (self.ssl.SSLWantReadError, BlockingIOError):
+                break
+            except (self.ssl.SSLError, OSError):
+                self.reset = True
+                break
+            if not d:
+                self.eof = True
+                break
+            self.rx += d
+            got += len(d)
+        return got
+
+
 def run_threaded_pending(case: Dict[str, Any]) -> Dict[str, Any]:
     """Thread-per-connection mode, output pending: the client stops reading while the origin has sent more than the socket
     buffers take, the stall lasts several timeouts, then the origin sends a tail and the client reads again.  The connection
@@ -420,16 +468,25 @@ def run_threaded_pending(case: Dict[str, Any]) -> Dict[str, Any]:
     vc = vclock.install()
     shim.S.reset()
     del _evals[:]
-    flags = make_flags(['--timeout', str(T)], cache_key='c20t:%d' % T, threaded=True)
+    tls_front = bool(case.get('tls_front'))
+    if tls_front:
+        from checks import c10
+        key, crt = c10.tls_files()
+        flags = make_flags(['--timeout', str(T), '--key-file', key, '--cert-file', crt], cache_key='c20t:%d:tls' % T, threaded=True)
+    else:
+        flags = make_flags(['--timeout', str(T)], cache_key='c20t:%d' % T, threaded=True)
     rig = ThreadRig(flags)
     viol: List[Dict[str, Any]] = []
     obs: Dict[str, int] = {}
-    feat = 'pending-output|threaded'
+    feat = 'pending-output|threaded%s' % ('+tls-front' if tls_front else '')
     inconclusive = None
     try:
         origin = rig.add_origin('127.0.%d.%d' % (rng.randint(0, 250), rng.randint(2, 250)))
         hp = origin.hostport
         client, work, th = rig.add_client('tcp', rcvbuf=65536)
+        if tls_front:
+            client = TlsClient(client)      # type: ignore[assignment]
+            obs['tls_front_pending_cases'] = 1
         client.send(b'CONNECT %s HTTP/1.1\r\nHost: %s\r\n\r\n' % (hp, hp))
         box: Dict[str, Any] = {}
 
@@ -668,12 +725,12 @@ def cases(tier: str, seed: int):
         gaps = [round(rng.choice([0.1, 0.5, 0.9, 0.99, 0.999]), 3) for _ in range(ngaps)]
         yield {'seed': seed, 'i': i, 'scenario': scen, 'rig': rigk, 'timeout': T, 'gaps': gaps, 'eps': rng.choice([0.001, 0.5]),
                'busy_neighbour': (rng.choice(['older', 'younger']) if rigk == 'step' and rng.random() < 0.4 and scen != 'pending-output' else False),
-               'flood': rng.choice([600000, 3000000]), 'req_headers': rng.choice(sorted(EXTRA_HEADERS))}
+               'flood': rng.choice([600000, 3000000]), 'req_headers': rng.choice(sorted(EXTRA_HEADERS)), 'tls_front': (i // len(SCEN)) % 8 == 3}
 
 
 def floors(tier: str) -> Dict[str, int]:
     fl = {'reaped_within_bound': 250, 'stay_open_windows': 600, 'rig:threaded': 50, 'rig:threadless': 250, 'is_inactive_evaluations': 3000,
-          'busy_neighbour_survived': 40, 'older_busy_neighbour_cases': 15, 'pending_output_threaded_delivered': 8}
+          'busy_neighbour_survived': 40, 'older_busy_neighbour_cases': 15, 'pending_output_threaded_delivered': 8, 'tls_front_pending_cases': 4}
     for s in SCEN:
         fl['scenario:' + s] = 30
     return fl
